@@ -47,7 +47,7 @@ CHECKS = {
         "title": "Distributor books always match the coins it holds",
         "level": "exploration",
         "technique": "property-based testing (rapid): generated valid sub-distributor graphs x multi-denomination inflow histories; invariant oracle (books identity, registered invariants, coin conservation) after every block",
-        "tests": [T("TestC03", 1500, 6000, qshards=2)],
+        "tests": [T("TestC03", 600, 6000, qshards=4)],
         "rule": "cases = sub-distributor configuration built to satisfy validation (1-4 drawn sub-distributors + repair sink; sources/destinations from MAIN, 12 module accounts, funded/new/blocked/vesting-locked base accounts, the main account's own address in lower- or upper-case bech32 in a 4% trickle, internal ids including ids equal to module names and addresses; 1-3 sources in any order; 0-3 shares and burn share from a boundary pool, sum < 1) "
                 "x 2-8 blocks x 0-3 injections per block into MAIN and swept accounts (uc4e and uatom, amounts from the boundary mixture up to 10^30). "
                 "Non-trivial = (>= 2 sub-distributors or a multi-source sub-distributor) and a fractional leftover was recorded in some block. Distinct = SHA-256 of (configuration, inflows).",
@@ -61,7 +61,7 @@ CHECKS = {
         "title": "Every destination receives exactly its configured share",
         "level": "exploration",
         "technique": "property-based testing (rapid): differential against an exact-rational reference model of the documented flow keyed by (type,id), plus two metamorphic twins (source-order permutation, collision renaming)",
-        "tests": [T("TestC04", 1200, 5000, qshards=2)],
+        "tests": [T("TestC04", 500, 5000, qshards=4)],
         "rule": "cases = as C03 (without main-account aliases, which validation rejects), 1-7 blocks. Oracle: per real account, balance + recorded leftover equals the big.Rat model within 10^-6 and the balance within 1 base unit per key; internal accounts end each block empty; burn likewise; twins must give identical final balances. "
                 "Non-trivial = a fractional leftover occurred, or the configuration has a MAIN/internal destination or an identifier collision. Distinct = SHA-256 of (configuration, inflows).",
         "min_nontrivial_fraction": 0.5,
